@@ -94,12 +94,13 @@ def drive_env(name, tier, seed, part, sched_file=None):
         return catalog.masked_action(env, obs, rng) if rng.random() < 0.6 else catalog.random_action(env, rng)
 
     tid = 0
-    for nobs in ((False, True) if part == "c13" else ()):
-        w = AutoResetWrapper(env, next_obs_in_extras=nobs)
+    for nobs_arg in ((False, True, "default") if part == "c13" else ()):
+        nobs = False if nobs_arg == "default" else nobs_arg      # documented default: next_obs_in_extras=False
+        w = AutoResetWrapper(env) if nobs_arg == "default" else AutoResetWrapper(env, next_obs_in_extras=nobs)
         if tier == "thorough":
-            modes = ["jit", "vmap", "scan", "eager"]
+            modes = ["jit", "scan"] if nobs_arg == "default" else ["jit", "vmap", "scan", "eager"]
         else:  # quick: every mode once, both next_obs settings under jit (compilation dominates the cost)
-            modes = ["jit", "vmap"] if not nobs else ["jit", "scan"]
+            modes = ["jit"] if nobs_arg == "default" else ["jit", "vmap"] if not nobs else ["jit", "scan"]
             if name in ("Game2048", "Maze", "Snake", "Knapsack") and nobs:
                 modes.append("eager")
         for mode in modes:
@@ -161,14 +162,19 @@ def drive_env(name, tier, seed, part, sched_file=None):
                     events.append(ar_event(name, mode, nobs, tid, i, tab, o_s, o_t))
                     prev = jax.tree_util.tree_map(lambda x: x[i], sts)
     # ---- C14: VmapWrapper lane law, VmapAutoReset == Vmap(AutoReset), render lane 0 ----
-    for nobs in ((False, True) if part == "c14" else ()):
+    for nobs_arg in ((False, True, "default") if part == "c14" else ()):
         tid += 1
         key = jax.random.PRNGKey(seed * 2003 + tid)
-        for Bn in (((3,) if not nobs else (2,)) if tier == "quick" else (1, 2, 3, 5, 8)):
+        nobs = False if nobs_arg == "default" else nobs_arg      # both wrappers document next_obs_in_extras=False as default
+        for Bn in (((3,) if not nobs else (2,)) if tier == "quick" else ((2,) if nobs_arg == "default" else (1, 2, 3, 5, 8))):
             keys = jax.random.split(key, Bn)
             vw = VmapWrapper(env)
-            var = VmapAutoResetWrapper(env, next_obs_in_extras=nobs)
-            vaw = VmapWrapper(AutoResetWrapper(env, next_obs_in_extras=nobs))
+            if nobs_arg == "default":        # the two stacks built with their DEFAULT arguments must agree as well
+                var = VmapAutoResetWrapper(env)
+                vaw = VmapWrapper(AutoResetWrapper(env))
+            else:
+                var = VmapAutoResetWrapper(env, next_obs_in_extras=nobs)
+                vaw = VmapWrapper(AutoResetWrapper(env, next_obs_in_extras=nobs))
             s_v, t_v = jax.jit(vw.reset)(keys)
             s_a, t_a = jax.jit(var.reset)(keys)
             s_b, t_b = jax.jit(vaw.reset)(keys)
